@@ -44,7 +44,24 @@ def main():
     sp["controlled_hosts"] = ([others[0]] if others else []) + cands[:2] + ["random"]
     sp["known_hosts"] = others[1:4]
     cfg["env"]["required_players"] = 4
-    d = nsgenv.start(cfg, seed=seed)
+    # the same configuration FILE is used by two coordinators started one after the other in this process: the second
+    # game must be the first one over again (nothing of a finished game may live on in the process)
+    path = nsgenv.write_config(cfg)
+    try:
+        first = play(cfg, seed, episodes, nsteps, defender, path)
+        second = play(cfg, seed, episodes, nsteps, defender, path)
+    finally:
+        os.unlink(path)
+    first["second_run_equal"] = (second["transcript"] == first["transcript"] and second["hash"] == first["hash"] and
+                                 second["ip_mapping"] == first["ip_mapping"] and second["errors"] == first["errors"])
+    if not first["second_run_equal"]:
+        k = next((i for i, (x, y) in enumerate(zip(first["transcript"], second["transcript"])) if x != y), None)
+        first["second_run_first_difference"] = [k, first["transcript"][k] if k is not None else None, second["transcript"][k] if k is not None else None] if k is not None else [len(first["transcript"]), len(second["transcript"])]
+    print(json.dumps(first))
+
+
+def play(cfg, seed, episodes, nsteps, defender, path):
+    d = nsgenv.start(cfg, seed=seed, path=path)
     g = d.g
     transcript = []
     # three attackers (each with a 'random' start host) and one defender; addresses are fixed
@@ -81,7 +98,12 @@ def main():
             drain()
         for step in range(nsteps):
             for who, a in enumerate(attackers):
-                st = g._agent_states[a]
+                st = g._agent_states.get(a)
+                if st is None or not st.controlled_hosts:
+                    # not in the game (its join was refused): it still sends the same kind of message
+                    exchange(a, msg("ScanNetwork", source_host=ip("192.168.2.2"), target_network={"ip": "192.168.1.0", "mask": 24}))
+                    drain()
+                    continue
                 ctrl = sorted(str(h) for h in st.controlled_hosts)
                 known = sorted(str(h) for h in st.known_hosts)
                 nets = sorted((n.ip, n.mask) for n in st.known_networks)
@@ -103,9 +125,11 @@ def main():
                     else:
                         exchange(a, msg("FindData", source_host=ip(ctrl[0]), target_host=ip(ctrl[0])))
                 drain()
-            dst = g._agent_states[b]
-            dctrl = sorted(str(h) for h in dst.controlled_hosts)
-            if step % 2 == 0:
+            dst = g._agent_states.get(b)
+            dctrl = sorted(str(h) for h in dst.controlled_hosts) if dst is not None else []
+            if not dctrl:
+                exchange(b, msg("FindData", source_host=ip("192.168.1.2"), target_host=ip("192.168.1.2")))
+            elif step % 2 == 0:
                 exchange(b, msg("FindData", source_host=ip(dctrl[0]), target_host=ip(dctrl[step % len(dctrl)])))
             else:
                 exchange(b, msg("BlockIP", source_host=ip(dctrl[0]), target_host=ip(dctrl[0]), blocked_host=ip(dctrl[-1])))
@@ -118,7 +142,7 @@ def main():
     out = {"hash": g._CONFIG_FILE_HASH, "transcript": transcript, "errors": errors,
            "ip_mapping": sorted((str(k), str(v)) for k, v in g._ip_mapping.items())}
     d.close()
-    print(json.dumps(out))
+    return out
 
 
 if __name__ == "__main__":
